@@ -195,7 +195,7 @@ def run(c):
         rules(600, 25, "main", c.seed, 8)
     else:
         events(4, 6, 4, 40, "main", c.seed)
-        rules(90, 14, "main", c.seed, 3)
+        rules(110, 14, "main", c.seed, 3)
 
     def search():
         events(8, 12, 8, 60, "search", c.seed + 101)
